@@ -1,5 +1,222 @@
-//! placeholder, filled in below
+//! Environment-model conformance for C01/C02 (DESIGN.md 4.1): every kind of
+//! transition the explorer's futex model can take is executed against the REAL
+//! `rusl::futex::{futex_wait, futex_wake}` wrappers — called exactly the way
+//! tiny-std's sync code calls them — with real threads, and the blocked state is
+//! confirmed through /proc/self/task/<tid>/syscall.
+
 use common::*;
+use real_rusl::futex::{futex_wait, futex_wake};
+use real_rusl::platform::FutexFlags;
+use serde_json::json;
+use std::sync::atomic::{AtomicI32, AtomicU32, Ordering::SeqCst};
+use std::sync::Arc;
+use std::time::{Duration, Instant};
+
+const SYS_FUTEX: &str = "202";
+
+struct Waiter {
+    tid: Arc<AtomicI32>,
+    result: Arc<AtomicI32>, // i32::MIN = still waiting, 0 = Ok, >0 errno
+    handle: Option<std::thread::JoinHandle<()>>,
+}
+
+fn spawn_waiter(word: Arc<AtomicU32>, expect: u32) -> Waiter {
+    let tid = Arc::new(AtomicI32::new(0));
+    let result = Arc::new(AtomicI32::new(i32::MIN));
+    let (t2, r2) = (tid.clone(), result.clone());
+    let handle = std::thread::spawn(move || {
+        t2.store(unsafe { libc::syscall(libc::SYS_gettid) } as i32, SeqCst);
+        // exactly the call `futex_wait_fast` makes
+        let r = futex_wait(&word, expect, FutexFlags::PRIVATE, None);
+        r2.store(
+            match r {
+                Ok(()) => 0,
+                Err(e) => e.code.map(|c| c.raw()).unwrap_or(-1),
+            },
+            SeqCst,
+        );
+    });
+    Waiter { tid, result, handle: Some(handle) }
+}
+
+fn in_futex_syscall(tid: i32) -> bool {
+    std::fs::read_to_string(format!("/proc/self/task/{tid}/syscall")).map(|s| s.split_whitespace().next() == Some(SYS_FUTEX)).unwrap_or(false)
+}
+
+fn wait_until(mut f: impl FnMut() -> bool, ms: u64) -> bool {
+    let t0 = Instant::now();
+    while t0.elapsed() < Duration::from_millis(ms) {
+        if f() {
+            return true;
+        }
+        std::thread::sleep(Duration::from_micros(200));
+    }
+    f()
+}
+
+impl Waiter {
+    fn parked(&self) -> bool {
+        wait_until(|| self.tid.load(SeqCst) != 0 && in_futex_syscall(self.tid.load(SeqCst)) && self.result.load(SeqCst) == i32::MIN, 2000)
+    }
+    fn still_parked_after(&self, ms: u64) -> bool {
+        std::thread::sleep(Duration::from_millis(ms));
+        self.result.load(SeqCst) == i32::MIN && in_futex_syscall(self.tid.load(SeqCst))
+    }
+    fn returned(&self) -> Option<i32> {
+        if wait_until(|| self.result.load(SeqCst) != i32::MIN, 2000) {
+            Some(self.result.load(SeqCst))
+        } else {
+            None
+        }
+    }
+    fn finish(mut self, word: &AtomicU32) {
+        // never leave a thread parked: change the word and wake everything (both key kinds)
+        word.store(0xdead_beef, SeqCst);
+        for _ in 0..50 {
+            if self.result.load(SeqCst) != i32::MIN {
+                break;
+            }
+            let _ = futex_wake(word, i32::MAX);
+            unsafe {
+                libc::syscall(libc::SYS_futex, word as *const _ as usize, 1 | 128, i32::MAX, 0, 0, 0);
+            }
+            std::thread::sleep(Duration::from_millis(2));
+        }
+        if self.result.load(SeqCst) != i32::MIN {
+            if let Some(h) = self.handle.take() {
+                let _ = h.join();
+            }
+        }
+    }
+}
+
+extern "C" fn on_usr1(_: libc::c_int) {}
+
 pub fn run(_args: &Args) -> Report {
-    Report::new()
+    let mut r = Report::new();
+    let mut check = |r: &mut Report, name: &str, ok: bool, detail: String| {
+        r.eval();
+        r.nontrivial(name);
+        r.outcome(name);
+        if ok {
+            r.traces_validated += 1;
+        } else {
+            r.violation(
+                &format!("C01:futex-conformance:{name}"),
+                format!("the real rusl futex wrappers do not behave as the explorer's futex model assumes: {detail}"),
+                json!({"transition": name}),
+            );
+        }
+        r.sample(json!({"model_transition": name, "real_kernel_agrees": ok, "detail": detail}));
+    };
+
+    // 1. wait with a different value fails at once with EAGAIN
+    {
+        let w = Arc::new(AtomicU32::new(5));
+        let t0 = Instant::now();
+        let res = futex_wait(&w, 6, FutexFlags::PRIVATE, None);
+        let code = res.err().and_then(|e| e.code).map(|c| c.raw());
+        check(&mut r, "wait-unequal-eagain", code == Some(11) && t0.elapsed() < Duration::from_millis(500), format!("futex_wait(word=5, expect=6) -> {code:?}"));
+    }
+    // 2+3. equal value parks; wake(1) returns 1 and the waiter returns Ok
+    {
+        let w = Arc::new(AtomicU32::new(2));
+        let a = spawn_waiter(w.clone(), 2);
+        let parked = a.parked();
+        check(&mut r, "wait-equal-parks", parked, format!("waiter parked in futex syscall: {parked}"));
+        let n = futex_wake(&w, 1).map_err(|e| e.code.map(|c| c.raw()));
+        let ret = a.returned();
+        check(&mut r, "wake1-wakes-one-returns-1", n == Ok(1) && ret == Some(0), format!("futex_wake(.,1) -> {n:?}, waiter returned {ret:?}"));
+        a.finish(&w);
+    }
+    // 4. wake with nobody waiting returns 0
+    {
+        let w = AtomicU32::new(0);
+        let n = futex_wake(&w, 1).map_err(|e| e.code.map(|c| c.raw()));
+        check(&mut r, "wake-nobody-returns-0", n == Ok(0), format!("futex_wake on an unwaited word -> {n:?}"));
+    }
+    // 5. two waiters, wake(1) wakes exactly one; the other stays parked until the next wake
+    {
+        let w = Arc::new(AtomicU32::new(2));
+        let a = spawn_waiter(w.clone(), 2);
+        let b = spawn_waiter(w.clone(), 2);
+        let both = a.parked() && b.parked();
+        let n1 = futex_wake(&w, 1).map_err(|e| e.code.map(|c| c.raw()));
+        let one = wait_until(|| (a.result.load(SeqCst) != i32::MIN) ^ (b.result.load(SeqCst) != i32::MIN), 2000);
+        std::thread::sleep(Duration::from_millis(20));
+        let exactly_one = (a.result.load(SeqCst) != i32::MIN) ^ (b.result.load(SeqCst) != i32::MIN);
+        check(&mut r, "wake1-of-two-wakes-exactly-one", both && n1 == Ok(1) && one && exactly_one, format!("both parked {both}, wake -> {n1:?}, exactly one returned {exactly_one}"));
+        let n2 = futex_wake(&w, 1).map_err(|e| e.code.map(|c| c.raw()));
+        let all = a.returned().is_some() && b.returned().is_some();
+        check(&mut r, "second-wake1-wakes-the-other", n2 == Ok(1) && all, format!("second wake -> {n2:?}, both returned {all}"));
+        a.finish(&w);
+        b.finish(&w);
+    }
+    // 6. wake(i32::MAX) wakes all and returns their number
+    {
+        let w = Arc::new(AtomicU32::new(7));
+        let a = spawn_waiter(w.clone(), 7);
+        let b = spawn_waiter(w.clone(), 7);
+        let c = spawn_waiter(w.clone(), 7);
+        let all_parked = a.parked() && b.parked() && c.parked();
+        let n = futex_wake(&w, i32::MAX).map_err(|e| e.code.map(|c| c.raw()));
+        let rets = (a.returned(), b.returned(), c.returned());
+        check(&mut r, "wake-all-returns-count", all_parked && n == Ok(3) && rets == (Some(0), Some(0), Some(0)), format!("three parked {all_parked}; wake(MAX) -> {n:?}; returns {rets:?}"));
+        a.finish(&w);
+        b.finish(&w);
+        c.finish(&w);
+    }
+    // 7. a wake on another word wakes nobody
+    {
+        let w = Arc::new(AtomicU32::new(1));
+        let other = AtomicU32::new(1);
+        let a = spawn_waiter(w.clone(), 1);
+        let parked = a.parked();
+        let n = futex_wake(&other, i32::MAX).map_err(|e| e.code.map(|c| c.raw()));
+        let still = a.still_parked_after(30);
+        check(&mut r, "wake-other-word-wakes-nobody", parked && n == Ok(0) && still, format!("wake on other word -> {n:?}; waiter still parked {still}"));
+        a.finish(&w);
+    }
+    // 8. a parked waiter stays parked while the word changes without a wake (the model only unparks on wake or deviation)
+    {
+        let w = Arc::new(AtomicU32::new(1));
+        let a = spawn_waiter(w.clone(), 1);
+        let parked = a.parked();
+        w.store(0, SeqCst);
+        let still = a.still_parked_after(30);
+        check(&mut r, "value-change-alone-does-not-wake", parked && still, format!("still parked after the word changed: {still}"));
+        a.finish(&w);
+    }
+    // 9. a signal makes the wait return EINTR (the model's EINTR deviation)
+    {
+        unsafe {
+            let mut sa: libc::sigaction = std::mem::zeroed();
+            sa.sa_sigaction = on_usr1 as *const () as usize;
+            sa.sa_flags = 0; // no SA_RESTART
+            libc::sigaction(libc::SIGUSR1, &sa, std::ptr::null_mut());
+        }
+        let w = Arc::new(AtomicU32::new(3));
+        let a = spawn_waiter(w.clone(), 3);
+        let parked = a.parked();
+        unsafe {
+            libc::syscall(libc::SYS_tgkill, libc::getpid(), a.tid.load(SeqCst), libc::SIGUSR1);
+        }
+        let ret = a.returned();
+        check(&mut r, "signal-returns-eintr", parked && ret == Some(4), format!("waiter returned {ret:?} after SIGUSR1"));
+        a.finish(&w);
+    }
+    // 10. wait after the word moved on returns EAGAIN (no lost wake-up window: compare and park are atomic)
+    {
+        let w = Arc::new(AtomicU32::new(2));
+        w.store(0, SeqCst);
+        let _ = futex_wake(&w, 1);
+        let res = futex_wait(&w, 2, FutexFlags::PRIVATE, None);
+        let code = res.err().and_then(|e| e.code).map(|c| c.raw());
+        check(&mut r, "wait-after-change-eagain", code == Some(11), format!("-> {code:?}"));
+    }
+    r.rule = "each kind of transition of the explorer's futex model (10 kinds) executed once against the real rusl futex wrappers with real threads; \
+              blocked state read from /proc/self/task/<tid>/syscall; distinct = transition kinds"
+        .into();
+    r.states = 0;
+    r
 }
